@@ -3,11 +3,13 @@ SPECIFICATION Spec
 CONSTANTS
   N = 2
   Catalogue = "small"
-  Relations = {"none", "parent", "dep", "group"}
+  Relations = {"none", "parent", "dep", "group", "gd"}
   MaxSet = 1
   MaxWrite = 2
   Validates = {FALSE, TRUE}
   SetClass = "all"
+  MaxEdit = 0
+  MaxAssign = 0
   UpdEnabled = {TRUE}
   Deviations = {}
 VIEW vw
